@@ -308,8 +308,55 @@ def c10_post_drive(prop, pairs, traces, rundir, seed, tier):
 C10_FAMS = [('mul', 360), ('move', 480), ('rowops', 320), ('obs', 320), ('elim', 240), ('ple', 200), ('trsm', 200), ('inv', 120), ('solve', 200), ('kernel', 120)]
 
 
-def c10_jobs(tier, seed):
-    jobs = []
+def gen_store_programs(tier, seed, rundir, nq=160, nt=1600):
+    """spec -> code: TLC simulates spec/Store.tla (shapes and aliasing only: ABSTRACT) and every behaviour becomes one program
+    for the 'prog' family of the harness"""
+    n = nq if tier == 'quick' else nt
+    simdir = os.path.join(rundir, 'sim_store')
+    shutil.rmtree(simdir, ignore_errors=True)
+    os.makedirs(simdir)
+    meta = os.path.join(rundir, 'meta_gen_store')
+    workers = 4
+    rc, o = vlib.sh([V + '/bin/tlc.sh', V + '/spec/gen/Gen_Store.tla', V + '/spec/gen/Gen_Store.cfg', meta, '-workers', str(workers),
+                     '-simulate', 'file=%s/tr,num=%d' % (simdir, (n + workers - 1) // workers), '-depth', '26', '-seed', str(1000 + seed)],
+                    env={'TLC_TIMEOUT': '1500'}, cwd=V + '/spec/gen', timeout=1600)
+    shutil.rmtree(meta, ignore_errors=True)
+    files = sorted(os.listdir(simdir))
+    if not files:
+        raise Infra('Gen_Store produced no behaviour (rc=%d):\n%s' % (rc, o[-2000:]))
+    progs = os.path.join(rundir, 'store_programs.ndjson')
+    ops = {}
+    with open(progs, 'w') as g:
+        for fn in files:
+            t = open(os.path.join(simdir, fn)).read()
+            i = t.rfind('hist = ')
+            if i < 0:
+                continue
+            js = tla_hist_to_json(t[i:])
+            for st in json.loads(js):
+                ops[st['op']] = ops.get(st['op'], 0) + 1
+            g.write(js + '\n')
+    shutil.rmtree(simdir, ignore_errors=True)
+    log('[gen] Gen_Store: %d behaviours of %d steps -> programs for the prog family (%s)' % (len(files), 24, ', '.join('%s %d' % kv for kv in sorted(ops.items()))))
+    return {'generated_programs': len(files), 'program_steps_by_operation': ops}
+
+
+def c10_prepare(tier, seed, rundir):
+    return gen_store_programs(tier, seed, rundir)
+
+
+def prog_jobs(tier, rundir, cfg=None):
+    """the TLC-generated programs executed on the real library: walked with the store of Store.tla (TraceStore) and judged
+    call by call (TraceOps); three allocator environments (also compared byte-wise by the purity check)"""
+    progs = os.path.join(rundir, 'store_programs.ndjson')
+    cfg = cfg or SMALL
+    sh = 4 if tier == 'quick' else 8
+    return [TraceJob(cfg, 'prog', shards=sh, args=['--env', env, '--extra', 'prog=' + progs], spec=spec, label='prog@%s#env%d' % (cfg, env), timeout=3000)
+            for env, spec in ((0, 'TraceStore'), (3, 'TraceOps'), (7, 'TraceStore'))]
+
+
+def c10_jobs(tier, seed, rundir):
+    jobs = prog_jobs(tier, rundir)
     q = tier == 'quick'
     for fam, n in C10_FAMS:
         for env in (0, 3, 7):
@@ -408,7 +455,8 @@ PROPS = {
     'C15': dict(level='model_checking', reasons=ALG_REASONS | {'padding'}, jobs=c15_jobs, mc=c15_mc, skip_reject_cfgs=[TSAN_CACHED],
                 assumptions=['schedules on the real code are those the OS produces; ThreadSanitizer (happens-before) reports a race independently of lucky timing, but only for code that ran',
                              'a report must repeat on one re-run before it is reported', 'the model classifies calls by the globals they touch; the binding is the TSan-observed execution of every routine by >= 2 threads']),
-    'C10': dict(level='model_checking', reasons={'padding', 'result', 'crash', 'unexpected_die', 'unknown_op'}, jobs=c10_jobs, mc=lambda tier: [], post_drive=c10_post_drive,
+    'C10': dict(level='model_checking', reasons={'padding', 'result', 'crash', 'unexpected_die', 'unknown_op', 'state_before_step', 'state_after_step'},
+                prepare=c10_prepare, jobs=c10_jobs, mc=lambda tier: [mcjob('MC_Store', workers=12, timeout=1800)], post_drive=c10_post_drive,
                 assumptions=GEN_ASSUME + ['environments: fresh process; allocator wrapper poisoning every block on hand-out (0xA5) and on release (0x5A); '
                                           'warm-up pass of the same case followed by filling every cached block with ones; destinations pre-filled with random data']),
     'C11': dict(level='other', reasons=ALL_REASONS, jobs=c11_jobs, mc=lambda tier: [],
